@@ -10,6 +10,7 @@ import (
 	"sort"
 	"strconv"
 	"strings"
+	"sync"
 	"testing"
 
 	"github.com/akalin/gopar/par1"
@@ -28,6 +29,7 @@ type Var struct {
 	Spelling string `json:"spelling"`       // abs | rel | dot | dslash | updown
 	CLI      bool   `json:"cli"`
 	PreExist bool   `json:"pre_exist,omitempty"` // longer files already sit at the output names
+	Overlap  int    `json:"overlap,omitempty"`   // (case level) this many runs on different sets overlap in time within one process (absolute paths, no chdir)
 	DupMixed bool   `json:"dup_mixed,omitempty"` // (case level) the first input is listed twice; in the variation the repeat uses the other spelling
 }
 
@@ -174,7 +176,91 @@ func tail(b []byte) string {
 	return string(b)
 }
 
+// createAbs runs Create in a fresh directory with absolute paths and without touching process-wide state.
+func createAbs(c Case, bump uint64, g int) (map[string][]byte, string) {
+	root := run.Scratch("c17o")
+	defer os.RemoveAll(root)
+	dir := filepath.Join(root, "w")
+	S := c.Slice
+	if c.Format == "par1" {
+		S = 64
+	}
+	orig := map[string][]byte{}
+	var paths []string
+	for _, f := range c.Files {
+		f.Seed += bump
+		orig[f.Name] = f.Content(S)
+		paths = append(paths, filepath.Join(dir, f.Name))
+	}
+	fsx.WriteTree(dir, orig)
+	before, _ := fsx.Take(dir)
+	var err error
+	pan, msg := run.Safe(func() {
+		if c.Format == "par2" {
+			err = par2.Create(filepath.Join(dir, "set.par2"), paths, par2.CreateOptions{SliceByteCount: c.Slice, NumParityShards: c.N, NumGoroutines: g})
+		} else {
+			err = par1.Create(filepath.Join(dir, "set.par"), paths, par1.CreateOptions{NumParityFiles: c.N})
+		}
+	})
+	if pan {
+		return nil, "Create panicked: " + msg
+	}
+	if err != nil {
+		return nil, "Create failed: " + err.Error()
+	}
+	after, _ := fsx.Take(dir)
+	out := map[string][]byte{}
+	for _, ch := range fsx.Diff(before, after) {
+		out[ch.Path] = after[ch.Path].Data
+	}
+	return out, ""
+}
+
+// checkOverlap: repeated runs give identical bytes also when runs on unrelated sets overlap in time.
+func checkOverlap(c Case) string {
+	k := c.Var.Overlap
+	bases := make([]map[string][]byte, k)
+	for j := 0; j < k; j++ {
+		b, msg := createAbs(c, uint64(j)*1000, 1)
+		if msg != "" {
+			return "baseline: " + msg
+		}
+		bases[j] = b
+	}
+	msgs := make([]string, k)
+	var wg sync.WaitGroup
+	for j := 0; j < k; j++ {
+		wg.Add(1)
+		go func(j int) {
+			defer wg.Done()
+			for r := 0; r < 15 && msgs[j] == ""; r++ {
+				got, msg := createAbs(c, uint64(j)*1000, c.Var.G)
+				if msg != "" {
+					msgs[j] = fmt.Sprintf("run %d of set %d while %d other runs overlap: %s", r, j, k-1, msg)
+					return
+				}
+				for n, b := range bases[j] {
+					if !bytes.Equal(got[n], b) {
+						msgs[j] = fmt.Sprintf("run %d of set %d wrote different bytes for %q than the same run alone, while %d runs on other sets overlapped in time", r, j, n, k-1)
+						return
+					}
+				}
+			}
+		}(j)
+	}
+	wg.Wait()
+	for _, m := range msgs {
+		if m != "" {
+			return m
+		}
+	}
+	return ""
+}
+
 func check(c Case) string {
+	if c.Var.Overlap > 1 {
+		return checkOverlap(c)
+	}
 	dupInput = c.Var.DupMixed
 	defer func() { dupInput = false }()
 	base, msg := create(c, Var{G: 1, Cwd: "unrelated", Spelling: "abs"})
@@ -270,6 +356,25 @@ func TestCheck(t *testing.T) {
 		idx++
 		if cfg.Mine(idx) {
 			do(Case{Format: "par2", Files: files4, Slice: 8, N: 5, Var: Var{G: 1 + idx%4, Perm: p, Cwd: "unrelated", Spelling: "abs", CLI: idx%3 == 0}})
+		}
+	}
+	// files whose IDs agree in their most significant 32 bits (two such pairs): every permutation of the input list
+	twins := scen.IDTwinFiles(11, 5, 2)
+	if len(twins) == 4 {
+		for _, p := range perms {
+			idx++
+			if cfg.Mine(idx) {
+				rec.Class("file-ids-agreeing-in-32-bits")
+				do(Case{Format: "par2", Files: twins, Slice: 4, N: 2, Var: Var{G: 1 + idx%3, Perm: p, Cwd: "set", Spelling: "rel"}})
+			}
+		}
+	}
+	// repeated runs that overlap in time (one process, unrelated sets, no shared paths)
+	for k, f := range []string{"par2", "par1", "par2"} {
+		idx++
+		if cfg.Mine(idx) {
+			rec.Class("overlapping-runs")
+			do(Case{Format: f, Files: files4[:3], Slice: 4, N: 2 + k, Var: Var{G: 1 + k, Cwd: "unrelated", Spelling: "abs", Overlap: 4 + 2*k}})
 		}
 	}
 	flat := []scen.FileSpec{{Name: "a.dat", Size: 10, Kind: "random", Seed: 1}, {Name: "b.bin", Size: 0, Kind: "random", Seed: 2}, {Name: "ünï.txt", Size: 70, Kind: "random", Seed: 3}}
